@@ -35,11 +35,11 @@ func DecodeOffchainConfig(b []byte) (o OffchainConfig, err error) {
 		return o, nil
 		// return o, fmt.Errorf("failed to decode offchain config: expected protobuf (got: 0x%x); %w", b, err)
 	}
-	if err := o.Validate(); err != nil {
-		return o, fmt.Errorf("failed to decode offchain config: %w", err)
-	}
 	o.ProtocolVersion = pbuf.ProtocolVersion
 	o.DefaultMinReportIntervalNanoseconds = pbuf.DefaultMinReportIntervalNanoseconds
+	if err := o.Validate(); err != nil {
+		return OffchainConfig{}, fmt.Errorf("failed to decode offchain config: %w", err)
+	}
 	return
 }
 
